@@ -9,8 +9,13 @@ also hands the truncated bytes to json.loads, which must reject them: the error 
 handle_message, sees them) and the loop ends normally.
 Not covered here (the other half of C15): the server/client wrappers around the loop and failing writers."""
 import asyncio, io, json, logging, os, signal, socket, struct, subprocess, sys, threading, time
+from concurrent.futures import ThreadPoolExecutor
 import core, c02
+import priv
 from c02 import H, B, jbody, py_frame, KINDS, DEFAULT_LIMIT
+
+# the two private entry points behind JsonRPCServer.start_io, by the labels used in the reports
+ENTRY = {"_start_io_sync": priv.start_io_sync, "_start_io_async": priv.start_io_async}
 
 SERVER_SCRIPT = os.path.join(core.ROOT, "harness", "servers", "c15_server.py")
 
@@ -106,7 +111,11 @@ class C15(c02.C02):
     trusted_base = c02.C02.trusted_base + [
         "reset is produced by StreamReader.set_exception(ConnectionResetError) after the loop has consumed the prefix, "
         "and for blocking readers by a harness reader (readline/read(n)) that raises ConnectionResetError on the read "
-        "that would have to wait"]
+        "that would have to wait",
+        priv.trusted(["server.start_io_sync", "server.start_io_async", "server.stop_event", "server.thread_pool",
+               "server.error_handler", "protocol.shutdown_flag", "protocol.request_futures", "protocol.result_types"])]
+    private = ["server.start_io_sync", "server.start_io_async", "server.stop_event", "server.thread_pool",
+               "server.error_handler", "protocol.shutdown_flag", "protocol.request_futures", "protocol.result_types"]
     assumptions = c02.C02.assumptions + [
         "a proper prefix of a body never parses as JSON (true for JSON objects/arrays; bodies in the generator are objects)",
         "the wrappers around the loop (start_io finally: shutdown(), TCP connection callback, client task) and write "
@@ -260,19 +269,21 @@ class C15(c02.C02):
                     pool = srv.thread_pool
                     prefix = data[:cut]
                     wt = None
+                    # the two private entry points of start_io: located before the observed call
+                    start_sync, start_async = priv.start_io_sync(srv), priv.start_io_async(srv)
                     try:
                         signal.setitimer(signal.ITIMER_REAL, 20)
                         if mode == "sync-eof":
-                            srv._start_io_sync(io.BytesIO(prefix), io.BytesIO())
+                            start_sync(io.BytesIO(prefix), io.BytesIO())
                         elif mode == "sync-reset":
-                            srv._start_io_sync(c02.ResetReader([prefix]), io.BytesIO())
+                            start_sync(c02.ResetReader([prefix]), io.BytesIO())
                         else:
                             r, w = os.pipe()
                             rd = os.fdopen(r, "rb")
                             wt = threading.Thread(target=c02.pipe_writer, args=(w, [prefix], 0), daemon=True)
                             wt.start()
                             try:
-                                srv._start_io_async(rd, io.BytesIO())
+                                start_async(rd, io.BytesIO())
                             finally:
                                 rd.close()
                         ret = "returns"
@@ -284,7 +295,7 @@ class C15(c02.C02):
                         signal.setitimer(signal.ITIMER_REAL, 0)
                         if wt is not None:
                             wt.join(5)
-                    ev = getattr(srv, "_stop_event", None)
+                    ev = priv.stop_event(srv)
                     try:
                         pool.submit(lambda: None); down = False
                         pool.shutdown()
@@ -296,10 +307,11 @@ class C15(c02.C02):
                     if impl != S:
                         viol.append(self._viol({"k": "wrapper", "mode": mode, "cut": cut}, impl, S))
             # @thread handlers queued behind ONE worker when the input ends: shutdown() waits for all of them
-            for which in ("_start_io_sync", "_start_io_async"):
+            for which in ("_start_io_sync", "_start_io_async"):     # (labels of the two entry points in the reports)
                 n += 1
                 srv = LanguageServer("c15", "1")
-                srv._max_workers = 1
+                priv.set_thread_pool(srv, ThreadPoolExecutor(max_workers=1))    # ONE worker
+                entry_fn = ENTRY[which](srv)
                 done = []
 
                 @srv.thread()
@@ -311,7 +323,7 @@ class C15(c02.C02):
                               for i in range(6))
                 try:
                     signal.setitimer(signal.ITIMER_REAL, 20)
-                    getattr(srv, which)(io.BytesIO(sl), io.BytesIO())
+                    entry_fn(io.BytesIO(sl), io.BytesIO())
                     ret = "returns"
                 except c02.HarnessTimeout:
                     ret = "hang"
@@ -328,10 +340,11 @@ class C15(c02.C02):
                 n += 1
                 srv = LanguageServer("c15", "1")
                 pool = srv.thread_pool
+                entry_fn = ENTRY[which](srv)
                 bad = b"Content-Length: " + b"0" * 4300 + b"2\r\n\r\n{}"
                 try:
                     signal.setitimer(signal.ITIMER_REAL, 20)
-                    getattr(srv, which)(io.BytesIO(bad), io.BytesIO())
+                    entry_fn(io.BytesIO(bad), io.BytesIO())
                     ret = "returns"
                 except c02.HarnessTimeout:
                     ret = "hang"
@@ -344,7 +357,7 @@ class C15(c02.C02):
                     pool.shutdown()
                 except RuntimeError:
                     down = True
-                impl = {"ret": ret, "stop_set": srv._stop_event.is_set(), "pool_down": down}
+                impl = {"ret": ret, "stop_set": priv.stop_event(srv).is_set(), "pool_down": down}
                 S = {"ret": "raise:ValueError", "stop_set": True, "pool_down": True}
                 if impl != S:
                     viol.append(self._viol({"k": "wrapper", "mode": which + "/loop-raises"}, impl, S))
@@ -395,15 +408,16 @@ class C15(c02.C02):
                     pass
                 def close(self):
                     pass
+            entry_fn = ENTRY[entry](srv)
             try:
-                getattr(srv, entry)(io.BytesIO(data), W())
+                entry_fn(io.BytesIO(data), W())
                 term = "normal"
             except BaseException as e:      # noqa
                 term = "raise:" + type(e).__name__
             doc = srv.workspace.text_documents.get("file:///c15.txt")
             return {"term": term, "handled": len(handled), "echoed": echoed,
                     "text": None if doc is None else doc.source, "version": None if doc is None else doc.version,
-                    "shutdown": bool(getattr(srv.protocol, "_shutdown", None))}, W, srv
+                    "shutdown": priv.shutdown_flag(srv.protocol)}, W, srv
 
         base, W0, _ = run(None, OSError, True)
         nwrites = W0.calls
